@@ -52,6 +52,10 @@ def c08(sc, tr):
         res['probes']['giant-lane(n1>65535)'] = 1
     mp = p['mp']
     fail = gen_failed(tr)
+    if fail is not None and sc.get('giant') and \
+            fail['exc']['type'] == 'RunTimeout':
+        res['skipped'] = 'harness-timeout(giant lane)'
+        return res
     if fail is not None:
         e = fail['exc']
         res['violations'].append(
